@@ -445,7 +445,8 @@ def phase_ieee(ctx):
         print("SPEC-DRIFT C10: ThermalIEEE trees do not conform for %s; finiteness judged on sampled values only"
               % [k for k, v in variant_of.items() if v is None])
     # the model: every class, the identified trees
-    vo = {k: (v or "pinned") for k, v in variant_of.items()}
+    # unidentified path: its finiteness is judged on the sampled values only; the model then checks the stable trees
+    vo = {k: (v or "stable") for k, v in variant_of.items()}
     minvs = ["InvFinite", "InvEvaluates", "InvThermalFreeEnergyNonPositive", "InvNonNegativeStable"]
     body = "MCX == AllClasses\nMCVariantOf == %s\n" % to_tla(vo)
     name = "MC_ThermalIEEE"
